@@ -367,8 +367,10 @@ func (x *Exec) doDefer(st *State, i *ssa.Defer) {
 func (x *Exec) doGo(st *State, i *ssa.Go) {
 	var args []SymVal
 	for _, a := range i.Call.Args {
-		v := x.val(st, a)
-		args = append(args, v)
+		args = append(args, x.val(st, a))
+	}
+	x.fireHooks(st, i, "go", false, args, nil)
+	for _, v := range args {
 		x.escape(st, v)
 	}
 	if !i.Call.IsInvoke() {
@@ -386,7 +388,6 @@ func (x *Exec) doGo(st *State, i *ssa.Go) {
 			x.Spawned[x.P.ShortName(fv.Fn)]++
 		}
 	}
-	x.fireHooks(st, i, "go", false, args, nil)
 	x.fireHooks(st, i, "go", true, args, nil)
 }
 
@@ -658,29 +659,31 @@ func (x *Exec) doAppend(st *State, in ssa.Instruction, c *ssa.CallCommon, args [
 	// fork: in place / reallocated
 	s2 := x.fork(st, fmt.Sprintf("b%d:append-realloc", st.fr.blk.Index))
 	{
-		// reallocation
+		// reallocation: fresh backing row holding the old elements followed by the new ones
 		q := s2
 		q.Restrict(Gt(newLen, SlCap(s)))
 		nb := x.newRef(q, "appbase")
 		delete(q.fresh, nb.S)
 		ncap := x.D.Fresh("ncap", SInt)
 		q.Assume(Ge(ncap, newLen))
+		res := x.D.Fresh("appres", SSlice)
+		q.Assume(Eq(res, MkSlice(nb, Zero, newLen, ncap)))
 		row := x.D.Fresh("row", ArrSort(SInt, es))
 		h := x.heap(q, ek)
 		oldRow := Select(h, SlBase(s))
 		srcRow := Select(h, SlBase(t))
-		q.Assume(mk(SBool, fmt.Sprintf("(forall ((j!q Int)) (! (=> (and (<= 0 j!q) (< j!q %s)) (= (select %s j!q) (select %s (+ %s j!q)))) :pattern ((select %s j!q))))",
-			SlLen(s).S, row.S, oldRow.S, SlOff(s).S, row.S)))
-		q.Assume(mk(SBool, fmt.Sprintf("(forall ((j!q Int)) (! (=> (and (<= 0 j!q) (< j!q %s)) (= (select %s (+ %s j!q)) (select %s (+ %s j!q)))) :pattern ((select %s (+ %s j!q)))))",
-			n.S, row.S, SlLen(s).S, srcRow.S, SlOff(t).S, row.S, SlLen(s).S)))
+		q.Assume(mk(SBool, fmt.Sprintf("(forall ((j!q Int)) (! (=> (and (<= 0 j!q) (< j!q %s)) (= (select %s (sidx %s j!q)) (select %s (sidx %s j!q)))) :pattern ((sidx %s j!q)) :pattern ((sidx %s j!q))))",
+			SlLen(s).S, row.S, res.S, oldRow.S, s.S, res.S, s.S)))
+		q.Assume(mk(SBool, fmt.Sprintf("(forall ((j!q Int)) (! (=> (and (<= 0 j!q) (< j!q %s)) (= (select %s (sidx %s (+ %s j!q))) (select %s (sidx %s j!q)))) :pattern ((sidx %s j!q))))",
+			n.S, row.S, res.S, SlLen(s).S, srcRow.S, t.S, t.S)))
 		if lit, ok := litInt(n); ok && lit <= 4 {
 			for j := int64(0); j < lit; j++ {
-				q.Assume(Eq(Select(row, Add(SlLen(s), IntLit(j))), Select(srcRow, Add(SlOff(t), IntLit(j)))))
+				q.Assume(Eq(Select(row, SlIdx(res, Add(SlLen(s), IntLit(j)))), Select(srcRow, SlIdx(t, IntLit(j)))))
 			}
 		}
 		x.setHeap(q, ek, Store(h, nb, row))
 		if call, ok := in.(*ssa.Call); ok {
-			q.fr.vals[call] = MkSlice(nb, Zero, newLen, ncap)
+			q.fr.vals[call] = res
 		}
 		q.fr.idx++
 		x.run(q)
@@ -690,21 +693,24 @@ func (x *Exec) doAppend(st *State, in ssa.Instruction, c *ssa.CallCommon, args [
 	h := x.heap(st, ek)
 	oldRow := Select(h, SlBase(s))
 	srcRow := Select(h, SlBase(t))
+	res := x.D.Fresh("appres", SSlice)
+	st.Assume(Eq(res, MkSlice(SlBase(s), SlOff(s), newLen, SlCap(s))))
 	if lit, ok := litInt(n); ok && lit <= 4 {
 		row := oldRow
 		for j := int64(0); j < lit; j++ {
-			row = Store(row, Add(Add(SlOff(s), SlLen(s)), IntLit(j)), Select(srcRow, Add(SlOff(t), IntLit(j))))
+			row = Store(row, SlIdx(res, Add(SlLen(s), IntLit(j))), Select(srcRow, SlIdx(t, IntLit(j))))
 		}
 		x.setHeap(st, ek, Store(h, SlBase(s), row))
 	} else {
 		row := x.D.Fresh("row", ArrSort(SInt, es))
-		base := Add(SlOff(s), SlLen(s))
+		lo := Add(SlOff(s), SlLen(s))
 		st.Assume(mk(SBool, fmt.Sprintf("(forall ((j!q Int)) (! (= (select %s j!q) (ite (and (<= %s j!q) (< j!q (+ %s %s))) (select %s (+ %s (- j!q %s))) (select %s j!q))) :pattern ((select %s j!q))))",
-			row.S, base.S, base.S, n.S, srcRow.S, SlOff(t).S, base.S, oldRow.S, row.S)))
+			row.S, lo.S, lo.S, n.S, srcRow.S, SlOff(t).S, lo.S, oldRow.S, row.S)))
 		x.setHeap(st, ek, Store(h, SlBase(s), row))
 	}
-	return MkSlice(SlBase(s), SlOff(s), newLen, SlCap(s))
+	return res
 }
+
 
 func litInt(t Term) (int64, bool) {
 	var n int64
@@ -748,11 +754,19 @@ func (x *Exec) doRecv(st *State, i *ssa.UnOp) {
 	ok := x.D.Fresh("rok", SBool)
 	st.Assume(Implies(Not(ok), And(Select(x.heap(st, kChClosed), ch), Eq(v, x.D.ZeroOf(et)))))
 	x.markDone(st, ch)
+	x.closeOnlyRecv(st, i.X, ch)
 	x.fireHooks(st, i, "recv", true, []SymVal{ch}, []SymVal{v, ok})
 	if i.CommaOk {
 		fr.vals[i] = Tuple{v, ok}
 	} else {
 		fr.vals[i] = v
+	}
+}
+
+// closeOnlyRecv: a receive from a channel that is never sent on returns only after close.
+func (x *Exec) closeOnlyRecv(st *State, chv ssa.Value, ch Term) {
+	if m := x.CS.Fields[fieldOfLoaded(chv)]; m != nil && m.Mode == "closeonly" {
+		st.Assume(Select(x.heap(st, kChClosed), ch))
 	}
 }
 
@@ -781,6 +795,7 @@ func (x *Exec) doSelect(st *State, i *ssa.Select) {
 		}
 		cases = append(cases, ci)
 	}
+	x.fireHooks(st, i, "select", false, nil, nil)
 	if i.Blocking {
 		var chans []Term
 		for _, c := range cases {
@@ -814,11 +829,20 @@ func (x *Exec) doSelect(st *State, i *ssa.Select) {
 		q.fr.vals[i] = tu
 	}
 	run := func(q *State, idx int) {
+		if idx < 0 {
+			// default is taken only when no case is ready; a closed channel is always ready to receive
+			for k, s := range i.States {
+				if s.Dir == types.RecvOnly {
+					q.Restrict(Not(Select(x.heap(q, kChClosed), cases[k].ch)))
+				}
+			}
+		}
 		mkTuple(q, idx)
 		if idx >= 0 {
 			s := i.States[idx]
 			if s.Dir == types.RecvOnly {
 				x.markDone(q, cases[idx].ch)
+				x.closeOnlyRecv(q, s.Chan, cases[idx].ch)
 				x.fireSelectHooks(q, i, idx, "recv", cases[idx].txt, cases[idx].ch, q.fr.vals[i].(Tuple))
 			} else {
 				x.escape(q, x.val(q, s.Send))
